@@ -28,6 +28,10 @@
      D8  the line pipelined directly behind PASV/PORT is executed from inside DTP.connectionMade, before the DTP's
          receive buffer exists: a STOR there fails with 426 after opening the file (never closed), leaves its
          consumer registered (later data is written to it) and makes every later STOR on that connection fail.
+     D10 a DTP stores into one file only: a second STOR on the same data connection fails with 426 after opening
+         the file (the DTP's buffer is gone) -- D5's "150 then 226" is what the first STOR on a lost connection gets.
+     D11 the peer closes the data connection during RETR: the transport stops the file sender (426) before the DTP
+         hears of the loss, so the next pipelined line still sees "connected" (flag half).
      D9  control connection lost while PORT is connecting: the connect is aborted, PORT completes and the
          next pipelined line is executed from inside connectionLost (flag late).
 *)
@@ -48,7 +52,7 @@ ObsReset(y) == [y EXCEPT !.codes = <<>>, !.sh = <<>>, !.op = <<>>, !.stop = <<>>
 
 X0 == [st |-> "NEW", alive |-> FALSE, quit |-> FALSE, pz |-> FALSE, busy |-> "none", queue |-> <<>>, user |-> "",
        nav |-> 0, cur |-> 0, louts |-> <<>>, nep |-> 0, ep |-> NoEp, tleft |-> 0, ndt |-> 0, dt |-> NoDt, buf |-> 0,
-       late |-> FALSE, made |-> FALSE, openEps |-> {}, sent |-> 0, started |-> 0, done |-> 0,
+       late |-> FALSE, made |-> FALSE, half |-> FALSE, openEps |-> {}, sent |-> 0, started |-> 0, done |-> 0,
        \* observations
        codes |-> <<>>, sh |-> <<>>, op |-> <<>>, stop |-> <<>>, dcl |-> <<>>, dw |-> 0, lo |-> <<>>, rlo |-> <<>>,
        login |-> <<>>, proc |-> <<>>, acc |-> FALSE]
@@ -92,25 +96,31 @@ DoPass(y, a) ==
                               !.login = Append(@, y.nav + 1)], 230)
          ELSE Reply([y EXCEPT !.user = "", !.st = "UNAUTH"], 530)
 
+\* DTP.isConnected: the transport is up -- or (half) it has just died and DTP.connectionLost has not run yet
+Conn(y) == y.dt.live \/ y.half
+
 DoList(y) ==
-    IF y.dt.att /\ y.dt.live
-    THEN Reply(Reply([Shell(y, <<"list:">>) EXCEPT !.dw = @ + 2, !.dcl = Append(@, y.dt.id)], 125), 226)
+    IF y.dt.att /\ Conn(y)
+    THEN Reply(Reply([Shell(y, <<"list:">>) EXCEPT !.dw = IF y.dt.live THEN @ + 2 ELSE @,
+                                                   !.dcl = IF y.dt.live THEN Append(@, y.dt.id) ELSE @], 125), 226)
     ELSE Reply(y, 503)
 
 DoRetr(y, a) ==
     IF ~y.dt.att THEN Reply(y, 503)
     ELSE IF a # "f" THEN Reply(Shell(y, <<"openr:" \o a>>), 550)
-    ELSE LET z == Shell(y, <<"openr:f", "send">>) IN
-         IF y.dt.live THEN [Reply(z, 125) EXCEPT !.busy = "RETR"]
-         ELSE Reply(Reply(z, 150), 426)          \* D5: the producer is stopped at once by the dead transport
+    ELSE IF y.dt.live THEN [Reply(Shell(y, <<"openr:f", "send">>), 125) EXCEPT !.busy = "RETR"]
+    ELSE Reply(Reply(Shell(y, <<"openr:f", "send">>), IF Conn(y) THEN 125 ELSE 150), 426)
+                                                 \* D5: the producer is stopped at once by the dead transport
 
+DoStor2(y, z) ==         \* z: file opened, consumer registered, early data flushed into it
+    IF y.dt.live THEN [Reply(z, 125) EXCEPT !.busy = "STOR"]
+    ELSE Reply(Shell(Reply(z, IF Conn(y) THEN 125 ELSE 150), <<"wclose">>), 226)      \* D5
 DoStor(y, a) ==
     IF ~y.dt.att THEN Reply(y, 503)
-    ELSE IF y.made \/ y.dt.stuck                                   \* D8
+    ELSE IF y.made \/ y.dt.stuck                                   \* D8, D10
          THEN Reply(Shell([y EXCEPT !.dt = [@ EXCEPT !.stuck = TRUE]], <<"openw:" \o a, "receive">>), 426)
-    ELSE LET z == [Shell(y, <<"openw:" \o a, "receive">> \o Rep(y.buf, "wdata")) EXCEPT !.buf = 0] IN
-         IF y.dt.live THEN [Reply(z, 125) EXCEPT !.busy = "STOR"]
-         ELSE Reply(Shell(Reply(z, 150), <<"wclose">>), 226)      \* D5
+    ELSE DoStor2(y, [Shell(y, <<"openw:" \o a, "receive">> \o Rep(y.buf, "wdata")) EXCEPT
+                                 !.buf = 0, !.dt = [@ EXCEPT !.stuck = TRUE]])
 
 Authed(y, c, a) ==
     CASE c = "USER" -> DoUser(y, a)
@@ -138,7 +148,7 @@ Proc(y, c, a) ==
 
 \* (operator arguments are evaluated once by TLC; LET definitions at every use)
 ProcW2(y, z, c) ==
-    [z EXCEPT !.started = @ + 1, !.made = FALSE,
+    [z EXCEPT !.started = @ + 1, !.made = FALSE, !.half = FALSE,
               !.done = IF z.busy = "none" THEN @ + 1 ELSE @,
               !.proc = Append(@, [c |-> c, st0 |-> y.st, att0 |-> y.dt.att,
                                   codes |-> SubSeq(z.codes, Len(y.codes) + 1, Len(z.codes)),
@@ -154,7 +164,7 @@ Drain(y) == IF y.busy = "none" /\ ~y.quit /\ y.queue # <<>>
 (* the outstanding command completes with these replies; queued lines follow *)
 Finish(y, cs) == Drain([y EXCEPT !.busy = "none", !.codes = @ \o cs, !.done = @ + 1])
 
-End(y) == [y EXCEPT !.pz = (y.busy # "none" \/ y.quit), !.made = FALSE]
+End(y) == [y EXCEPT !.pz = (y.busy # "none" \/ y.quit), !.made = FALSE, !.half = FALSE]
 Up == x.alive
 
 -----------------------------------------------------------------------------
@@ -231,7 +241,7 @@ DLost ==
                                  !.ep = IF x.dt.att /\ x.ep.kind = "C" THEN [@ EXCEPT !.cst = "disc"] ELSE @] IN
     /\ Up /\ x.dt.live
     /\ x' = IF ~y.dt.att THEN y
-            ELSE IF y.busy = "RETR" THEN End(Finish(y, <<426>>))
+            ELSE IF y.busy = "RETR" THEN End(Finish([y EXCEPT !.half = TRUE], <<426>>))      \* D11
             ELSE IF y.busy = "STOR" THEN End(Finish(Shell(y, <<"wclose">>), <<226>>))
             ELSE y
     /\ last' = [e |-> "dlost"]
